@@ -175,4 +175,7 @@ Fuzzy(t) == \E i \in 1..Len(Points(t)) :
 \* structure-fuzzy: the item contains values whose equality the specification does not model
 StructFuzzy(t) == \E i \in 1..Len(Points(t)) : Points(t)[i].k \in {"graph", "index"}
 HasFloat(t) == \E i \in 1..Len(Points(t)) : Points(t)[i].k \in {"float", "fvec"}
+\* ( n ( n-1 ( ... ( 1 leaf ) ... ) ) ): the tree nested n levels that the harness builds where an event could not carry it
+RECURSIVE DeepItem(_, _)
+DeepItem(n, leaf) == IF n = 0 THEN IInt(leaf) ELSE IList(<<IInt(n), DeepItem(n - 1, leaf)>>)
 =============================================================================
